@@ -7,10 +7,10 @@ from props import routerC_lib as L
 ID = 'C11'
 COQ_MODEL = 'model.Router'
 COQ_CORR = 'corr_C11'
-N_QUICK = 130
+N_QUICK = 110
 N_THOROUGH = 1200
 THOROUGH_EXHAUSTIVE = False
-VM_CASES = 12
+VM_CASES = 6
 RULE = ('case = a fresh application and a history of 4..30 operations over a 13-rule / 7-hook / 3-name universe with '
         'shared and split prefixes, wildcard siblings, a filter conflict and hook-only prefixes: add (method subsets, '
         'names, overwrite, duplicates => rejected adds incl. name conflicts that have already inserted the route), '
@@ -438,6 +438,21 @@ def _oracle(case, obs):
             got_names = [s_(n[0]) for n in after['named']]
             if got_names != want_names:
                 return 'after %s the names are %s, expected %s' % (_show(c), got_names, want_names)
+        if c['op'] in ('add', 'add_hook') and res == 0:
+            # an accepted registration is filed under the pattern of the rule AS WRITTEN (Route.parse_rule), which is the
+            # key remove(rule) / router[{rule}] / add_hook(rule) / remove_hook(rule) derive from the same text
+            pat = ctx.parse(c['rule'])[0]
+            s_ = lambda xs: ''.join(map(chr, xs))
+            after = a.run(dict(op='listing'))
+            kind = 'routes' if c['op'] == 'add' else 'hooks'
+            had = [s_(r[0]) for r in before[kind]]
+            got = [s_(r[0]) for r in after[kind]]
+            if sorted(got) != sorted(set(had) | {pat}):
+                return 'after the accepted %s the %s index lists %s, expected %s plus %r' % (_show(c), kind, got, had, pat)
+            if c['op'] == 'add' and c.get('name'):
+                to = [s_(n[1]['pattern']) for n in after['named'] if s_(n[0]) == c['name']]
+                if to != [pat]:
+                    return 'after the accepted %s the name %r leads to %s, expected %r' % (_show(c), c['name'], to, pat)
         if before is not None and res in (1, 2, 3, 4, 5, 8):
             # refused by the tree (filter conflict ...) or by the method table: the check runs before any write
             after = a.run(dict(op='listing'))
